@@ -76,8 +76,10 @@ theorem apply_inv (w : DW Seed Key) (op : Op) (h : Inv step w) :
   | scan n a => exact ⟨(scan_inv step w n a h).1, (scan_inv step w n a h).2.1⟩
   | reload => exact ⟨h, rfl⟩
   | relock => exact ⟨h, rfl⟩
+  | lock => exact ⟨h, rfl⟩
+  | unlock => exact ⟨h, rfl⟩
 
-/-- **entries_eq_prefix**: after ANY sequence of generate / scan / save-reload / lock-unlock
+/-- **entries_eq_prefix**: after ANY sequence of generate / scan / save-reload / lock / unlock
 operations the wallet's entries are exactly the first N keys of the single sequence determined by
 the seed, N = the number of entries kept so far, and `lastSeed` is the N-th state: the addresses
 depend on the seed and on how many were derived in total, not on the batches -/
@@ -182,6 +184,8 @@ theorem crun_inv (ops : List Op) : CInv child (crun child ops) := by
           exact (cgen_inv child ⟨[]⟩ _ (by simp [CInv])).1
       | reload => exact h
       | relock => exact h
+      | lock => exact h
+      | unlock => exact h
   exact this ops ⟨[]⟩ (by simp [CInv])
 
 /-- **entries_eq_prefix** for bip44 chains and xpub wallets: entry i is child i of the chain key,
